@@ -46,6 +46,10 @@ theorem parser_text_trimmed_at_end (calls : List Call) :
   obtain ⟨n, _, htext, hsp, _⟩ := fixEntities_spec (run (calls.map toOp)) (inv_run _)
   exact ⟨n, htext, hsp⟩
 
+/-- The builder methods the model transliterates are unchanged in the source (see C35). -/
+theorem builder_source_unchanged :
+    Facts.C35.changedBuilderMethods = [] ∧ Facts.C35.pinnedBuilderMethods = 19 := by decide
+
 /-- `Call` covers the whole state-changing API: the methods of `entity.Builder` and
 `entity.Token` in the current source are exactly modelled ∪ read-only ∪ final ∪ internal, and the
 generated `Bold(s)`-style methods are all `b.Format(s, …)`. -/
